@@ -212,7 +212,43 @@ def check_limit_adapter(res, facts, trait, head, tname, inner_rem, chunk_m, adv_
             return probs
         decide("%s::%s" % (tname, m), method_body(facts, trait, head, m), cons_probs, "guard cnt <= limit; inner.%s(cnt); limit -= cnt on the same paths" % m)
     # every other method the adapter overrides: whatever it consumes through `inner` must be accounted for in `limit`
-    known = {inner_rem, chunk_m, adv_m, "chunks_vectored"} | set(extra)
+    # has_remaining / has_remaining_mut, when overridden, is `remaining() != 0` = both the limit and the inner buffer have something left
+    has_m = "has_remaining" if inner_rem == "remaining" else "has_remaining_mut"
+    hb = method_body(facts, trait, head, has_m)
+    if hb is not None and hb.id.startswith("<" + head.split("<")[0]):
+        def has_probs(b):
+            from .flow import enumerate_paths, PathExprBuilder, path_relations
+            # decided per path: `true` only where limit != 0 and inner.has_remaining() (or remaining() != 0) are known; `false` only where one of them fails
+            is_has = ucall_on(has_m, "inner")
+            is_rem = ucall_on(inner_rem, "inner")
+            for path in enumerate_paths(b, limit=200):
+                pe = PathExprBuilder(b, facts, path, inline=False)
+                v = canon(pe.local(0, (path[-1], len(b.blocks[path[-1]]["stmts"]))))
+                rels = [r for r in path_relations(b, facts, path) if r]
+                lim_nz = any((r[0] == "ne" and lim(canon(r[1])) and canon(r[2]) == ("const", 0)) or (r[0] == "lt" and canon(r[1]) == ("const", 0) and lim(canon(r[2]))) for r in rels if len(r) > 2 and isinstance(r[1], tuple) and isinstance(r[2], tuple))
+                lim_z = any(r[0] == "eq" and lim(canon(r[1])) and canon(r[2]) == ("const", 0) for r in rels if len(r) > 2 and isinstance(r[1], tuple) and isinstance(r[2], tuple))
+                inner_yes = any(r[0] == "truth" and is_has(strip_refs(canon(r[1]))) and r[2] == 1 for r in rels) or \
+                    any(r[0] in ("ne", "lt") and len(r) > 2 and isinstance(r[1], tuple) and isinstance(r[2], tuple) and
+                        ((is_rem(strip_refs(canon(r[1]))) and canon(r[2]) == ("const", 0)) or (canon(r[1]) == ("const", 0) and is_rem(strip_refs(canon(r[2]))))) for r in rels)
+                inner_no = any(r[0] == "truth" and is_has(strip_refs(canon(r[1]))) and r[2] == 0 for r in rels) or \
+                    any(r[0] == "eq" and len(r) > 2 and isinstance(r[1], tuple) and is_rem(strip_refs(canon(r[1]))) and canon(r[2]) == ("const", 0) for r in rels)
+                if isinstance(v, tuple) and v and v[0] == "const":
+                    if v[1] in (1, True) and not (lim_nz and inner_yes):
+                        return ["answers true on a path where `limit != 0` and `inner.%s()` are not both known" % has_m]
+                    if v[1] in (0, False) and not (lim_z or inner_no):
+                        return ["answers false on a path where neither `limit == 0` nor an exhausted inner buffer is known"]
+                    continue
+                # a computed answer: it must be the inner answer under limit != 0, or a comparison of remaining() / min(..) with 0
+                sv = strip_refs(v)
+                if is_has(sv) and lim_nz:
+                    continue
+                if isinstance(sv, tuple) and sv[0] == "bin" and sv[1] in ("Ne", "Gt", "Lt") and any(is_min_of(canon(x), ucall_on(inner_rem, "inner"), lim) or
+                        (isinstance(x, tuple) and x[0] in ("call", "ucall") and str(x[1]).rsplit("::", 1)[-1] == inner_rem and strip_refs(canon(x[2][0])) in (("param", 1), ("deref", ("param", 1)))) for x in (sv[2], sv[3])):
+                    continue
+                return ["is not `limit != 0 && inner.%s()` / `remaining() != 0`: %s" % (has_m, fmt_expr(v)[:80])]
+            return []
+        decide("%s::%s" % (tname, has_m), hb, has_probs, "true exactly where limit != 0 and the inner buffer has bytes left")
+    known = {inner_rem, chunk_m, adv_m, "chunks_vectored", has_m} | set(extra)
     NON_CONSUMING = {"remaining", "chunk", "has_remaining", "chunks_vectored", "remaining_mut", "chunk_mut", "has_remaining_mut"}
     AMOUNT = {"advance": ("arg", 1), "advance_mut": ("arg", 1), "copy_to_bytes": ("arg", 1), "put_bytes": ("arg", 2),
               "put_slice": ("len", 1), "copy_to_slice": ("len", 1)}
